@@ -141,6 +141,12 @@ def _ops(maxtiers, nslots):
         for a in NAMES:
             for b in NAMES:
                 yield ("ren", a, b)
+        # a new name that is another tier's name plus white space ("notes " next to "notes"): a name of its own - tier names are kept as given
+        for a in NAMES[:2]:
+            for b in NAMES[:3]:
+                if a != b:
+                    yield ("ren", a, b + " ")
+                    yield ("ren", a, " " + b)
         for a in NAMES:
             for b in NAMES[:3]:
                 for s in (0, 2, 3, 5)[: 3 if nslots < 6 else 4]:
@@ -236,6 +242,8 @@ def _step(m, op, tg=None):
     idxclass = None
     if op[0] == "add" and op[3] is not None:
         idxclass = "neg" if op[3] < 0 else ("over" if op[3] > len(m[0]) else "in")
+    if op[0] == "ren" and isinstance(op[2], str) and op[2] != op[2].strip():
+        exp = None      # checked, but not expanded: states with white-space-padded names would only multiply the state space
     return exp, 1, op[0], (op[0], len(m[0]), idxclass, widened), []
 
 
